@@ -83,7 +83,7 @@ func New() *OrderedDaemon {
 		stoppedCtxCancel:       stoppedCtxCancel,
 		workers:                make(map[string]*worker),
 		shutdownOrderWorker:    make([]string, 0),
-		wgPerSameShutdownOrder: make(map[int]*sync.WaitGroup),
+		wgPerSameShutdownOrder: make(map[int]*syncutils.Counter),
 	}
 }
 
@@ -97,7 +97,9 @@ type OrderedDaemon struct {
 	stopOnce               sync.Once
 	workers                map[string]*worker
 	shutdownOrderWorker    []string
-	wgPerSameShutdownOrder map[int]*sync.WaitGroup
+	// running workers per shutdown order (a Counter and not a sync.WaitGroup: workers of an order are added while Run
+	// or a shutdown wait for that order to drain, which a WaitGroup does not permit)
+	wgPerSameShutdownOrder map[int]*syncutils.Counter
 	lock                   syncutils.RWMutex
 	logger                 log.Logger
 }
@@ -150,7 +152,7 @@ func (d *OrderedDaemon) getWorkersAndShutdownOrder() (map[string]*worker, []stri
 func (d *OrderedDaemon) runBackgroundWorker(name string, backgroundWorker WorkerFunc) {
 	worker := d.workers[name]
 	shutdownOrderWaitGroup := d.wgPerSameShutdownOrder[worker.shutdownOrder]
-	shutdownOrderWaitGroup.Add(1)
+	shutdownOrderWaitGroup.Increase()
 
 	worker.running.Store(true)
 	go func() {
@@ -162,7 +164,7 @@ func (d *OrderedDaemon) runBackgroundWorker(name string, backgroundWorker Worker
 
 		// first we need to finish the waitgroup, otherwise stopWorkers could
 		// already have acquired the lock and wait until all wait groups are done.
-		shutdownOrderWaitGroup.Done()
+		shutdownOrderWaitGroup.Decrease()
 
 		// now we can acquire the lock and cleanup the worker
 		d.cleanupWorker(name)
@@ -213,7 +215,7 @@ func (d *OrderedDaemon) BackgroundWorker(name string, handler WorkerFunc, order 
 	}
 
 	if _, ok := d.wgPerSameShutdownOrder[shutdownOrder]; !ok {
-		d.wgPerSameShutdownOrder[shutdownOrder] = &sync.WaitGroup{}
+		d.wgPerSameShutdownOrder[shutdownOrder] = syncutils.NewCounter()
 	}
 
 	ctx, ctxCancel := context.WithCancel(context.Background())
@@ -273,12 +275,12 @@ func (d *OrderedDaemon) Run() {
 		if wg == nil {
 			continue
 		}
-		wg.Wait()
+		wg.WaitIsZero()
 	}
 }
 
 // returns all waitgroups of all existing shutdown orders or nil if none.
-func (d *OrderedDaemon) waitGroupsForAllShutdownOrders() []*sync.WaitGroup {
+func (d *OrderedDaemon) waitGroupsForAllShutdownOrders() []*syncutils.Counter {
 	d.lock.RLock()
 	defer d.lock.RUnlock()
 
@@ -286,7 +288,7 @@ func (d *OrderedDaemon) waitGroupsForAllShutdownOrders() []*sync.WaitGroup {
 		return nil
 	}
 
-	waitGroups := make([]*sync.WaitGroup, len(d.wgPerSameShutdownOrder))
+	waitGroups := make([]*syncutils.Counter, len(d.wgPerSameShutdownOrder))
 	i := 0
 	for _, wg := range d.wgPerSameShutdownOrder {
 		waitGroups[i] = wg
@@ -333,7 +335,7 @@ func (d *OrderedDaemon) stopWorkers() {
 			// if the current worker has a lower priority...
 			if worker.shutdownOrder < prevPriority {
 				// wait for every worker in the previous shutdown priority to terminate
-				d.wgPerSameShutdownOrder[prevPriority].Wait()
+				d.wgPerSameShutdownOrder[prevPriority].WaitIsZero()
 				prevPriority = worker.shutdownOrder
 			}
 			if d.logger != nil {
@@ -342,7 +344,7 @@ func (d *OrderedDaemon) stopWorkers() {
 			worker.ctxCancel()
 		}
 		// wait for the last priority to finish
-		d.wgPerSameShutdownOrder[prevPriority].Wait()
+		d.wgPerSameShutdownOrder[prevPriority].WaitIsZero()
 	}
 }
 
